@@ -1,7 +1,155 @@
-/- stub: overwritten by the builder of this engine -/
-import Driver.Common
-open Lean FV FV.Drv
+/-
+Driver for E6 / forecasting (C19).   msg := [sender, recipient|null, type]
 
-def handle (_ : Json) : Except String Json := throw "driver not implemented"
+  {"op":"enum","grammar":G,"start":"<start>","cap":20,"depth":d,"limit":N}
+      → {"certs":{"rank_ok":b,"productive":b,"msg_only":b,"fuel":F},
+         "cases":[{"h":[msg…],"nexts":[msg…],"complete":b,"code":[msg…],"code_fixed":[msg…],"code_fixed_nocap":[msg…],
+                   "code_complete":b,"positions":k,"positions_typeonly":k'}…], "truncated":b}
+        every prefix of every interaction up to `depth` messages (breadth first along `nexts`)
+  {"op":"forecast","grammar":G,"start":…,"cap":…,"histories":[[msg…]…]}
+      → {"certs":…, "cases":[… as above, plus "prefix":b …]}
+  {"op":"slice","grammar":G,"keep":[party…],"ignore_receivers":b,"by_eq":b} → {"grammar":G'}
+        by_eq = true: children are removed as the code does (`list.remove`, first `==` element)
+-/
+import Driver.IRJson
+import Model.Forecast
+open Lean FV FV.Drv FV.Fc
+
+def msgOfJson (j : Json) : Except String Msg := do
+  let a ← j.getArr?
+  let s ← (a[0]?.getD Json.null).getStr?
+  let t ← (a[2]?.getD Json.null).getStr?
+  return ⟨s, optStr (a[1]?.getD Json.null), t⟩
+
+def jMsg (m : Msg) : Json := Json.arr #[Json.str m.sender, jOptStr m.recipient, Json.str m.type]
+def jMsgs (ms : List Msg) : Json := Json.arr (ms.map jMsg).toArray
+
+/-- rank candidate: longest chain of head positions, `n` rounds (unverified helper; the result is
+    only used through the verified check `rankOk`) -/
+def computeRank (G : Grammar) : String → Nat :=
+  let names := G.rules.map (·.1)
+  let step (r : String → Nat) : String → Nat := fun name =>
+    match G.rule name with
+    | some body => (heads body).foldl (fun acc h => Nat.max acc (r h + 1)) 0
+    | none => 0
+  let tbl := (List.range (names.length + 1)).foldl
+    (fun (t : List (String × Nat)) _ =>
+      let r : String → Nat := fun nm => match t.find? (·.1 == nm) with | some p => p.2 | none => 0
+      names.map (fun nm => (nm, step r nm)))
+    (names.map (fun nm => (nm, 0)))
+  fun nm => match tbl.find? (·.1 == nm) with | some p => p.2 | none => 0
+
+partial def ntsOf : Node → List String
+  | .term _ => []
+  | .nt name s _ => if s.isSome then [] else [name]
+  | .alt _ ns => ns.flatMap ntsOf
+  | .cat _ ns => ns.flatMap ntsOf
+  | .rep _ _ n _ _ => ntsOf n
+
+/-- names reachable from `start` through non-message nonterminals -/
+partial def reach (G : Grammar) (todo seen : List String) : List String :=
+  match todo with
+  | [] => seen
+  | x :: rest =>
+    if seen.contains x then reach G rest seen
+    else match G.rule x with
+      | some body => reach G (ntsOf body ++ rest) (x :: seen)
+      | none => reach G rest (x :: seen)
+
+structure Certs where
+  rank : String → Nat
+  fuel : Nat
+  rankOk : Bool
+  productive : Bool
+  msgOnly : Bool
+
+/-- the message-level part of the grammar: rules reachable from the start through non-message
+    nonterminals (message *content* rules are not part of the protocol level) -/
+def msgLevel (G : Grammar) (startName : String) : Grammar :=
+  let names := reach G [startName] []
+  { rules := G.rules.filter (fun p => names.contains p.1) }
+
+def certsOf (G : Grammar) : Certs :=
+  let rank := computeRank G
+  let F := G.rules.length + 2
+  { rank := rank, fuel := F, rankOk := Fc.rankOk G rank F, productive := productiveB G F,
+    msgOnly := G.rules.all (fun p => msgOnly p.2) }
+
+def jCerts (c : Certs) : Json :=
+  Json.mkObj [("rank_ok", Json.bool c.rankOk), ("productive", Json.bool c.productive),
+    ("msg_only", Json.bool c.msgOnly), ("fuel", Json.num (JsonNumber.fromNat c.fuel))]
+
+/-- forget the parties (what `StateGrammarConverter` does: a message becomes the terminal `<type>`) -/
+partial def eraseParties : Node → Node
+  | .term t => .term t
+  | .nt name s r => if s.isSome then .nt name (some "") none else .nt name s r
+  | .alt id ns => .alt id (ns.map eraseParties)
+  | .cat id ns => .cat id (ns.map eraseParties)
+  | .rep id k n mn mx => .rep id k (eraseParties n) mn mx
+
+def eraseG (G : Grammar) : Grammar := { rules := G.rules.map (fun p => (p.1, eraseParties p.2)) }
+
+def caseOf (G : Grammar) (cap F : Nat) (start : Node) (h : List Msg) : Json :=
+  -- the partial derivations of a history nest as deep as the history is long (right recursion)
+  let Fc := (h.length + 2) * (G.rules.length + 1)
+  let ps := positions G cap Fc start h
+  Json.mkObj [("h", jMsgs h),
+    ("nexts", jMsgs (nexts G F start h).eraseDups),
+    ("complete", Json.bool (complete G F start h)),
+    ("prefix", Json.bool (isPrefix G F start h)),
+    ("code", jMsgs (codeNexts false G cap Fc start h)),
+    ("code_fixed", jMsgs (codeNexts true G cap Fc start h)),
+    ("code_fixed_nocap", jMsgs (codeNexts true G 1000000 Fc start h)),
+    ("code_complete", Json.bool (codeComplete G F start h)),
+    ("positions", Json.num (JsonNumber.fromNat ps.length)),
+    ("positions_typeonly", Json.num (JsonNumber.fromNat
+      (positions (eraseG G) cap Fc start (h.map (fun m => ⟨"", none, m.type⟩))).length))]
+
+/-- breadth-first enumeration of the prefixes of the message-level language -/
+partial def bfs (G : Grammar) (F : Nat) (start : Node) (depth limit : Nat)
+    (frontier : List (List Msg)) (acc : List (List Msg)) (d : Nat) : List (List Msg) × Bool :=
+  if frontier.isEmpty then (acc.reverse, false)
+  else if d ≥ depth then (acc.reverse, false)
+  else
+    let next := frontier.flatMap (fun h => ((nexts G F start h).eraseDups).map (fun m => h ++ [m]))
+    let room := limit - acc.length
+    if next.length > room then ((next.take room).reverse ++ acc |>.reverse, true)
+    else bfs G F start depth limit next (next.reverse ++ acc) (d + 1)
+
+def handle (j : Json) : Except String Json := do
+  let op ← j.getObjValAs? String "op"
+  match op with
+  | "enum" | "forecast" =>
+    let G0 ← grammarOf (← j.getObjVal? "grammar")
+    let startName ← j.getObjValAs? String "start"
+    let cap ← j.getObjValAs? Nat "cap"
+    let G := msgLevel G0 startName
+    let start : Node := .nt startName none none
+    let c := certsOf G
+    if !(c.rankOk && c.productive && c.msgOnly) then
+      return Json.mkObj [("certs", jCerts c), ("cases", Json.arr #[]), ("truncated", Json.bool false)]
+    let (hs, trunc) ←
+      if op == "enum" then do
+        let depth ← j.getObjValAs? Nat "depth"
+        let limit ← j.getObjValAs? Nat "limit"
+        pure (bfs G c.fuel start depth limit [[]] [[]] 0)
+      else do
+        let hsJ ← (← j.getObjVal? "histories").getArr?
+        let hs ← hsJ.toList.mapM (fun hj => do
+          let a ← hj.getArr?
+          a.toList.mapM msgOfJson)
+        pure (hs, false)
+    return Json.mkObj [("certs", jCerts c),
+      ("cases", Json.arr (hs.map (caseOf G cap c.fuel start)).toArray),
+      ("truncated", Json.bool trunc)]
+  | "slice" =>
+    let G ← grammarOf (← j.getObjVal? "grammar")
+    let keep ← (← (← j.getObjVal? "keep").getArr?).toList.mapM (fun x => x.getStr?)
+    let ign ← j.getObjValAs? Bool "ignore_receivers"
+    let byEq ← j.getObjValAs? Bool "by_eq"
+    let G' := sliceG ⟨keep, ign, byEq⟩ G
+    return Json.mkObj [("grammar", Json.mkObj [("rules",
+      Json.arr (G'.rules.map (fun p => Json.arr #[Json.str p.1, jNode p.2])).toArray)])]
+  | _ => throw s!"unknown op {op}"
 
 def main : IO Unit := run handle
